@@ -276,22 +276,52 @@ Definition parse_body_plain (mediatype : bytes) (h : hdr) (b : bits) (st : mstat
     if b64s_ok b then Ok (set_body (set_enc st enc_b64) mediatype) else Err
   else Err.
 
-(* ---------- one iteration of the part loop of parseEMLMultipart (eml.go:373-448) ----------
-   [sub] = parseEMLBodyParts applied to this part (used only when the part is a nested multipart). *)
-Definition part_step (sub : mstate -> outcome mstate) (p : entity) (st : mstate) : outcome mstate :=
+(* ---------- one iteration of the part loop of parseEMLMultipart (eml.go:373-448) ---------- *)
+
+(* The transfer encoding of a body part.  In the source the slice is declared INSIDE the loop body:
+     mutliPartTransferEnc, ok := multiPart.Header["Content-Transfer-Encoding"]
+     if !ok { mutliPartTransferEnc = []string{EncodingQP.String()} }   // the stdlib strips the header of QP parts
+   so the default is established afresh for every part: it is a function of the part's own header. *)
+Definition part_cte (h : hdr) : list bytes :=
+  match hvals h hdr_content_transfer_enc with
+  | [] => [enc_qp]
+  | l => l
+  end.
+
+(* the switch over strings.EqualFold(mutliPartTransferEnc[0], …): 7bit, 8bit, base64, quoted-printable *)
+Definition classify_cte (c0 : bytes) : option bytes :=
+  if eqfold c0 enc_7bit then Some enc_7bit
+  else if eqfold c0 enc_none then Some enc_none
+  else if eqfold c0 enc_b64 then Some enc_b64
+  else if eqfold c0 enc_qp then Some enc_qp
+  else None.
+
+Definition part_enc_of_hdr (h : hdr) : option bytes :=
+  match part_cte h with
+  | c0 :: _ => classify_cte c0
+  | [] => None
+  end.
+
+(* first half: `if contentTypeSlice, ok := Header["Content-Type"]; ok && len(contentTypeSlice) == 1`:
+   a nested multipart/related|alternative is parsed recursively ([sub] = parseEMLBodyParts on this part);
+   the flag says whether the part's body was consumed by that *)
+Definition nested_phase (sub : mstate -> outcome mstate) (p : entity) (st : mstate) : outcome (mstate * bool) :=
   let h := e_hdr p in
   let b := e_bits p in
-  (* if contentTypeSlice, ok := Header["Content-Type"]; ok && len(contentTypeSlice) == 1 *)
-  r1 <- match hvals h hdr_content_type with
-        | [_] as cts =>
-            ct0 <- go_index cts 0 ;;
-            ph <- parse_multipart_header ct0 ;;
-            if eqfold (fst ph) type_multipart_related || eqfold (fst ph) type_multipart_alternative then
-              if read_ok b then (st' <- sub st ;; Ok (st', true)) else Err
-            else Ok (st, false)
-        | _ => Ok (st, false)
-        end ;;
-  let '(st1, drained) := r1 in
+  match hvals h hdr_content_type with
+  | [_] as cts =>
+      ct0 <- go_index cts 0 ;;
+      ph <- parse_multipart_header ct0 ;;
+      if eqfold (fst ph) type_multipart_related || eqfold (fst ph) type_multipart_alternative then
+        if read_ok b then (st' <- sub st ;; Ok (st', true)) else Err
+      else Ok (st, false)
+  | _ => Ok (st, false)
+  end.
+
+(* second half: attachment / embed, or a body part appended to msg.parts *)
+Definition body_phase (p : entity) (drained : bool) (st1 : mstate) : outcome mstate :=
+  let h := e_hdr p in
+  let b := e_bits p in
   match hvals h hdr_content_disposition with
   | (_ :: _) as cd => attachment_embed cd h b drained st1             (* … goto ReadNextPart *)
   | [] =>
@@ -311,21 +341,22 @@ Definition part_step (sub : mstate -> outcome mstate) (p : entity) (st : mstate)
                         | Some c => c
                         | None => m_charset st1
                         end in
-              let ctes := match hvals h hdr_content_transfer_enc with
-                          | [] => [enc_qp]
-                          | l => l
-                          end in
               (* mutliPartTransferEnc[0]: five textual occurrences of the same expression *)
-              c0 <- go_index ctes 0 ;;
-              if eqfold c0 enc_7bit then Ok (set_parts st1 (m_parts st1 ++ [mkp contentType cs enc_7bit]))
-              else if eqfold c0 enc_none then Ok (set_parts st1 (m_parts st1 ++ [mkp contentType cs enc_none]))
-              else if eqfold c0 enc_b64 then
-                if drained || b64d_ok b
-                then Ok (set_parts st1 (m_parts st1 ++ [mkp contentType cs enc_b64])) else Err
-              else if eqfold c0 enc_qp then Ok (set_parts st1 (m_parts st1 ++ [mkp contentType cs enc_qp]))
-              else Err
+              c0 <- go_index (part_cte h) 0 ;;
+              match classify_cte c0 with
+              | None => Err                                          (* unsupported Content-Transfer-Encoding *)
+              | Some enc =>
+                  (* base64: handleEMLMultiPartBase64Encoding may fail *)
+                  if bytes_eqb enc enc_b64 && negb (drained || b64d_ok b) then Err
+                  else Ok (set_parts st1 (m_parts st1 ++ [mkp contentType cs enc]))
+              end
         end
   end.
+
+Definition part_step (sub : mstate -> outcome mstate) (p : entity) (st : mstate) : outcome mstate :=
+  r1 <- nested_phase sub p st ;;
+  let '(st1, drained) := r1 in
+  body_phase p drained st1.
 
 (* ---------- parseEMLBodyParts (eml.go:256) + parseEMLMultipart (eml.go:357) ----------
    the part loop: every iteration ends in `goto ReadNextPart` or in the NextPart call at the bottom
